@@ -45,6 +45,7 @@ TScanStart == Is("scan_start") /\ Step /\ ScanStart(Ev.s)
 
 TImage    == Is("image") /\ Step /\ Image(Ev.lossy, Ev.lock, Ev.failed)
 TReopened == Is("reopened") /\ Step /\ (Reopened(Ev) \/ OpenClean(Ev))
+TDamagedOpened == Is("damaged_opened") /\ Step /\ DamagedOpened(Ev)
 TRestore  == Is("restore") /\ Step /\ Restore
 TContinue == Is("continue") /\ Step /\ Continue
 TReadAll  == Is("readall") /\ Step /\ ReadAll(Ev)
@@ -106,7 +107,7 @@ TGoldenOpened == Is("golden_opened") /\ Step
                  /\ UNCHANGED <<pend, back, cfg, seq, ver, acked, floor, closing, closedLin, img, scans, bk, held>>
 
 \* free-form information for the reader of a recording
-TNote == Is("note") /\ Step /\ UNCHANGED absvars
+TNote == (Is("note") \/ Is("wal") \/ Is("idx")) /\ Step /\ UNCHANGED absvars   \* "wal", "idx": projected log / index state, judged by TraceWal.tla / TraceLH.tla only
 
 \* C10: these are never acceptable
 \*   fault (panic / memory fault), stuck (no progress), leak (goroutine left after Close), race
@@ -114,7 +115,7 @@ TNote == Is("note") /\ Step /\ UNCHANGED absvars
 
 TNext ==
   \/ TReset \/ TInv \/ TRet \/ TLin \/ TScanStart
-  \/ TImage \/ TReopened \/ TRestore \/ TContinue \/ TReadAll \/ TBackupOpened
+  \/ TImage \/ TReopened \/ TDamagedOpened \/ TRestore \/ TContinue \/ TReadAll \/ TBackupOpened
   \/ TGoldenOpened \/ TDecoded \/ TOpenLocked \/ THold \/ TObserve \/ TListing \/ TRound \/ TFsCmp \/ TNote
 
 TSpec == TInit /\ [][TNext]_tvars
